@@ -183,3 +183,30 @@ Example C02_nonvacuous_go :
   guards_go_free [] None w_trim_clear = true /\ guards_go_free [] None w_limit_zero = true /\
   guards_go_free [] None w_limit_order = false.
 Proof. vm_compute. repeat split; try reflexivity; discriminate. Qed.
+
+(* ---- closer: the corner inside BOTH guards of a limited clear, and the uniform consequence ---- *)
+From C02 Require Import ProofsCorner.
+
+(* a limited ClearPrefixLimit inside both guard_trim_limit and guard_limit_order_go is reported as
+   class 3 (prefix-trim) and its observation really differs from the ordered map's *)
+Theorem C02_guard_corner_exact : forall t m p l, Trie.MapProofs.Rep t m -> l <> 0%N ->
+  guard_trim_limit m p l = true -> guard_limit_order_go m p l = true ->
+  guard_of m t (OpClearLimit p l) = 3%nat /\
+  snd (trie_step repaired t (OpClearLimit p l)) <> snd (bm_step m (OpClearLimit p l)).
+Proof. exact guard_corner_exact. Qed.
+Print Assumptions C02_guard_corner_exact.
+
+(* hence, for every operation and from every state in which the trie represents the map: a guard
+   is hit if and only if the call's observation differs from the ordered map's *)
+Theorem C02_guard_iff_differs : forall t m o, Trie.MapProofs.Rep t m ->
+  (guard_of m t o = 0%nat <-> snd (trie_step repaired t o) = snd (bm_step m o)).
+Proof. exact guard_iff_differs. Qed.
+Print Assumptions C02_guard_iff_differs.
+
+(* the corner is inhabited: 0x10, 0x1f, 0x1f01 stored, ClearPrefixLimit(0x10, 2) *)
+Example C02_guard_corner_nonvacuous :
+  let m := fst (fold_left (fun s o => bm_step (fst s) o) w_corner_pre ([], OutPanic)) in
+  guard_trim_limit m (b [16])%N 2 = true /\ guard_limit_order_go m (b [16])%N 2 = true /\
+  guards_free [] None w_corner = false /\
+  run_trie repaired None w_corner <> run_bmap [] w_corner.
+Proof. exact corner_nonvacuous. Qed.
